@@ -164,14 +164,7 @@ func classify(check string, tx lexgen.Text, lx []lexgen.Lexeme) {
 
 func TestLexFaithful(t *testing.T) {
 	hx.Rule("lex_faithful", "lexeme sequences (1-30) from the reference grammar x drawn separators; expected kinds/values/one EOF/comments by construction; non-trivial = has a no-separator adjacency, a comment, an escape/doubled quote or a non-ASCII lexeme; distinct = (lexeme kinds, separator classes)")
-	lexCheck.Rapid(t, hx.N(120000, 1200000), func(rt *rapid.T) LexCase {
-		f := features()
-		lx := lexgen.GenLexemes(rt, f, 30)
-		tx := lexgen.Render(lx, lexgen.GenSeps(rt, f, lx, "s"))
-		classify("lex_faithful", tx, lx)
-		hx.Sample("lex_faithful", tx.Src)
-		return LexCase{tx}
-	})
+	lexCheck.Rapid(t, hx.N(120000, 1200000), genLexFaithful)
 }
 
 // ---------------------------------------------------------------- layout / case independence
@@ -346,3 +339,16 @@ func TestParseLayoutInvariant(t *testing.T) {
 		return ParseLayoutCase{Canonical: sqlgen.SQL(st.Toks), Laid: tx.Src}
 	})
 }
+
+// genLexFaithful is the case generator of lexCheck (shared by the rapid run and the native fuzz target).
+func genLexFaithful(rt *rapid.T) LexCase {
+	f := features()
+	lx := lexgen.GenLexemes(rt, f, 30)
+	tx := lexgen.Render(lx, lexgen.GenSeps(rt, f, lx, "s"))
+	classify("lex_faithful", tx, lx)
+	hx.Sample("lex_faithful", tx.Src)
+	return LexCase{tx}
+}
+
+// FuzzLexFaithful: coverage-guided search over the same generator (thorough tier).
+func FuzzLexFaithful(f *testing.F) { lexCheck.Fuzz(f, genLexFaithful) }
